@@ -182,6 +182,7 @@ struct Box {
     virtual void selfassign() = 0;              // x = x
     virtual std::string probe() const = 0;
     virtual std::string xprobe(const Box& src) const = 0;   // elements created through `src` (same domain), used through this
+    virtual bool sane() const { return true; }              // the object still holds the construction parameters it was given
 };
 
 template <class D, std::string (*PROBE)(const D&), std::string (*XPROBE)(const D&, const D&)>
@@ -270,10 +271,24 @@ struct RnsBox : Box {
         for (size_t j = 0; j < n; ++j) D[j] = F_t(i ? p1[j] : p0[j]);
         return D;
     }
-    explicit RnsBox(int i) : d(doms(i)) {}
-    RnsBox(const RnsBox& o) : d(o.d) {}
+    int par;
+    static R make(int i) {          // the caller's array is reused (overwritten) after the system was built from it
+        R::domains D = doms(i);
+        R sys(D);
+        for (size_t j = 0; j < D.size(); ++j) D[j] = F_t(7);
+        return sys;
+    }
+    explicit RnsBox(int i) : d(make(i)), par(i) {}
+    RnsBox(const RnsBox& o) : d(o.d), par(o.par) {}
+    bool sane() const override {
+        const int32_t p0[] = {101, 103, 107}, p1[] = {65521, 65519, 65497, 65479};
+        const size_t n = par ? 4 : 3;
+        if ((size_t)d.size() != n) return false;
+        for (size_t j = 0; j < n; ++j) if (d.ith(j).characteristic() != (uint64_t)(par ? p1[j] : p0[j])) return false;
+        return true;
+    }
     Box* copy() const override { return new RnsBox(*this); }
-    void assign(const Box& o) override { d = static_cast<const RnsBox&>(o).d; }
+    void assign(const Box& o) override { d = static_cast<const RnsBox&>(o).d; par = static_cast<const RnsBox&>(o).par; }
     void selfassign() override { R& alias = d; d = alias; }
     std::string probe() const override {
         std::ostringstream os;
@@ -391,9 +406,22 @@ inline const std::map<std::string, Maker>& kinds() {
             B base(i ? 3 : 5, 1); P pd(base, Indeter("Y")); P::Element irr; B::Element e;
             const int c5[] = {2, 0, 1}, c3[] = {2, 1, 0, 0, 1};
             const int* c = i ? c3 : c5; const int n = i ? 5 : 3;
-            pd.init(irr, Degree(n - 1));
-            for (int j = 0; j < n; ++j) { base.init(e, Integer(c[j])); irr[size_t(j)] = e; }
+            // the user's polynomial is stored with two leading zero coefficients: the constructor must normalise it (a const operation
+            // that meets an un-normalised member strips it, i.e. writes to the shared object)
+            irr.resize(size_t(n + 2));
+            for (int j = 0; j < n + 2; ++j) { base.init(e, Integer(j < n ? c[j] : 0)); irr[size_t(j)] = e; }
             return new RingBox<E>(pd, irr); }},
+        // extension of a NON-prime base field GF(3^2) resp. GF(2^2) (the exponent of the base differs from the order of the extension)
+        {"Extension_GFq_nonprime", [](int i) -> Box* { typedef GFqDom<int32_t> B; typedef Extension<B> E; typedef Poly1Dom<B, Dense> P;
+            typedef std::vector<B::Residu_t> V;
+            B base = i ? B(2u, 2u, V{1, 1, 1}) : B(3u, 2u, V{2, 1, 1});
+            // modulus of the extension: found once per process by the library's own search (deterministic default random state; the harnesses
+            // build every object of a kind in processes forked after this first call), then passed explicitly
+            static P::Element irrs[2];
+            static bool have[2] = {false, false};
+            P pd(base, Indeter("Y"));
+            if (!have[i]) { E tmp(base, 3u, Indeter("Y")); irrs[i] = tmp.irreducible(); have[i] = true; }
+            return new RingBox<E>(pd, irrs[i]); }},
         {"Poly1Dom_Modular_int32", [](int i) -> Box* { return new PolyBox(i ? 65521 : 101); }},
         {"Values_Integer_Rational_RecInt", [](int i) -> Box* { return new ValueBox(i); }},
         {"IntRNSsystem", [](int i) -> Box* { return new IntRnsBox(i); }},
